@@ -87,12 +87,25 @@ func genC06(dir, tier string, seed int64) {
 		n = 15000
 	}
 	cw := newCaseWriter(dir, "C06_ops", opHeader("CheckC06"), opFooter,
-		"seeded random RNN / GRU / LSTM nodes: seq 1..4, batch 1..3, input 1..3, hidden 1..3 (all combinations incl. hidden = 1 and batch*input = 1), every subset of the optional inputs B, initial_h, initial_c, P (omitted trailing inputs and explicitly skipped ones), default and explicit activation lists over {Sigmoid, Tanh, Relu} in the ONNX and in lower-case spelling (and, one explicit list in five, a name the library does not implement -- Softsign, HardSigmoid, LeakyRelu, Elu, Affine, ThresholdedRelu, ScaledTanh, Softplus, the empty string -- with or without activation_alpha / activation_beta; too short lists), linear_before_reset in {absent,0,1}, input_forget in {absent,0,1}, float32 (float64 rarely: must be computed or refused); weights with pairwise distinct non-zero gate blocks and biases so that any gate or bias-slot swap moves the result far outside the tolerance", false, 60)
+		"seeded random RNN / GRU / LSTM nodes: seq 1..4, batch 1..3, input 1..3, hidden 1..3 (one case in six with one of them 4, 5, 8 or 9) (all combinations incl. hidden = 1 and batch*input = 1), every subset of the optional inputs B, initial_h, initial_c, P (omitted trailing inputs and explicitly skipped ones), default and explicit activation lists over {Sigmoid, Tanh, Relu} in the ONNX and in lower-case spelling (and, one explicit list in five, a name the library does not implement -- Softsign, HardSigmoid, LeakyRelu, Elu, Affine, ThresholdedRelu, ScaledTanh, Softplus, the empty string -- with or without activation_alpha / activation_beta; too short lists), linear_before_reset in {absent,0,1}, input_forget in {absent,0,1}, float32 (float64 rarely: must be computed or refused); weights with pairwise distinct non-zero gate blocks and biases so that any gate or bias-slot swap moves the result far outside the tolerance", false, 60)
 	split := goOnlyResult{Stream: "C06_split", Rule: "for every generated configuration that runs and every split point 0 < k < seq: running X[0:k] and then X[k:] from the final state(s) of the first piece gives, bit for bit, the Y (concatenated), Y_h and Y_c of the whole run", Violations: []string{}}
 	gates := map[string]int{"RNN": 1, "GRU": 3, "LSTM": 4}
 	for c := 0; c < n; c++ {
 		op := []string{"RNN", "GRU", "LSTM"}[c%3]
 		S, B, In, H := 1+r.Intn(4), 1+r.Intn(3), 1+r.Intn(3), 1+r.Intn(3)
+		if r.Intn(6) == 0 { // larger extents: loops unrolled by 4 or 8 have a remainder here
+			big := []int{4, 5, 8, 9}
+			switch r.Intn(4) {
+			case 0:
+				S = big[r.Intn(4)]
+			case 1:
+				B = big[r.Intn(4)]
+			case 2:
+				In = big[r.Intn(4)]
+			default:
+				H = big[r.Intn(4)]
+			}
+		}
 		if r.Intn(4) != 0 && H == 1 {
 			H = 2 + r.Intn(2)
 		}
